@@ -63,6 +63,31 @@ CHECKS["C14"] = dict(
          "legal API use as defined in the evidence; bounded depth after each checkpoint, checkpoints are prefixes of canonical runs only.",
     ref="6/C14")
 
+_COMPOSED_NOTE = ("server/connectivity model env/client.py (from docs/server-protocol.rst), ideal PAKE/AEAD, deterministic randomness; checkpoints are the "
+                  "prefixes of one canonical honest run per configuration; k free steps (quick/thorough as in the evidence) then a fair completion; "
+                  "oracle evaluated concretely on each solver-selected schedule (schedule choices are z3 variables case-split by symrun).")
+CHECKS["C08"] = dict(
+    text="Real composed client(s) under bounded symbolic schedules (9 configurations: set/allocate/input, wrong code, deferred API, server error, welcome error, "
+         "third participant, solo): close() or an error at any point of every canonical prefix + 2/3 arbitrary steps, then fair completion: exactly one closed "
+         "notification, nothing delivered after it, verdict admissible for the history (happy iff Boss had verified a peer message at close time, LonelyError, "
+         "WrongPasswordError, ServerError, WelcomeError), claim released, mailbox closed with the matching mood, connection down, close() Deferred fired.",
+    note=_COMPOSED_NOTE + " One known finding (claim of an in-flight allocate).", ref="6/C08")
+CHECKS["C18"] = dict(
+    text="Real composed client(s), delegated and deferred API (get_* up front or as schedule actions), 8 configurations, bounded symbolic schedules: each of "
+         "code/key/verifier/versions/closed at most once, causal order, verifier before any peer data, versions before messages on an order-preserving server, "
+         "nothing after closed; after closed every outstanding and future get_*() Deferred has failed; get_message() results are the peer's messages in order.",
+    note=_COMPOSED_NOTE, ref="6/C18")
+CHECKS["C03"] = dict(
+    text="Two real composed clients, up to 3 messages per direction, server may duplicate/reorder stored messages, replay the mailbox on every open, lose in-flight "
+         "traffic on drops: at every step of every bounded schedule each side's received sequence is a prefix of the peer's send_message arguments; after fair "
+         "completion everything sent was delivered.",
+    note=_COMPOSED_NOTE + " Message contents are fixed distinct strings (tampering is C02).", ref="6/C03")
+CHECKS["C09"] = dict(
+    text="Two real composed clients against the lossy server model (commands processed only when scheduled; a drop discards unprocessed commands and undelivered "
+         "replies), up to 4 connections per side, bounded symbolic fault schedules of drop/open/process/deliver/API steps: bind first on every connection, no "
+         "application event repeated, list re-issued, and after fair completion both sides have key, verifier, versions and every send_message was delivered once.",
+    note=_COMPOSED_NOTE + " Bounded liveness only (adversarial prefix + fair suffix).", ref="6/C09")
+
 NOT_YET = {}
 
 NA = {}
